@@ -55,6 +55,53 @@ MUTANTS = [
     ("C05", "accept-small-decrease", "src/optimisation.rs",
      "Some(new_score) if new_score > old => Some(new_score),",
      "Some(new_score) if new_score > old - 1e-9 * old.abs() => Some(new_score),"),
+    ("C08", "free-angle-orthorhombic", "src/cell.rs",
+     "            CrystalFamily::Orthorhombic => {\n                basis.push(StandardBasis::new(&self.ratio, 0.1, self.ratio.get_value()));\n",
+     "            CrystalFamily::Orthorhombic => {\n                basis.push(StandardBasis::new(&self.ratio, 0.1, self.ratio.get_value()));\n                basis.push(StandardBasis::new(&self.angle, PI / 6., PI / 2.));\n"),
+    ("C08", "wider-site-bounds", "src/site.rs",
+     "basis.push(StandardBasis::new(&self.y, -0.5, 0.5));", "basis.push(StandardBasis::new(&self.y, -0.5, 0.55));"),
+    ("C08", "ratio-lower-bound", "src/cell.rs",
+     "CrystalFamily::Monoclinic => {\n                basis.push(StandardBasis::new(&self.ratio, 0.1, self.ratio.get_value()));",
+     "CrystalFamily::Monoclinic => {\n                basis.push(StandardBasis::new(&self.ratio, 0.05, self.ratio.get_value()));"),
+    ("C08", "accept-nan-again", "src/optimisation.rs",
+     "            Some(new_score) if !new_score.is_finite() => None,\n", ""),
+    ("C04", "transform-order", "src/site.rs",
+     ".map(move |sym| sym * transform)", ".map(move |sym| transform * sym)"),
+    ("C04", "free-angle-orthorhombic", "src/cell.rs",
+     "            CrystalFamily::Orthorhombic => {\n                basis.push(StandardBasis::new(&self.ratio, 0.1, self.ratio.get_value()));\n",
+     "            CrystalFamily::Orthorhombic => {\n                basis.push(StandardBasis::new(&self.ratio, 0.1, self.ratio.get_value()));\n                basis.push(StandardBasis::new(&self.angle, PI / 6., PI / 2.));\n"),
+    ("C04", "p2mg-table-typo", "src/wallpaper.rs",
+     '"x,y", "-x, -y", "-x+1/2, y", "x+1/2, -y"', '"x,y", "-x, -y", "-x+1/2, y", "x, -y+1/2"'),
+    ("C01", "range-b-uses-a", "src/state/packed.rs",
+     "let range_b = (reach / self.cell.b()).floor() as i64 + 1;", "let range_b = (reach / self.cell.a()).floor() as i64 + 1;"),
+    ("C01", "prefilter-halved", "src/state/packed.rs",
+     "self.shape.enclosing_radius().mul(2.).powi(2)", "self.shape.enclosing_radius().mul(1.5).powi(2)"),
+    ("C01", "heuristic-shells-again", "src/state/packed.rs",
+     "let range_a = (reach / self.cell.a()).floor() as i64 + 1;\n        let range_b = (reach / self.cell.b()).floor() as i64 + 1;",
+     "let range_a = if reach / self.cell.a() < 1. { 1 } else { 2 };\n        let range_b = range_a;"),
+    ("C01", "endpoint-tolerance-removed", "src/shape/components/line2.rs",
+     "let tol = 1e-10;", "let tol = 0.;"),
+    ("C11", "svg-matrix-transposed", "src/to_svg.rs",
+     "                matrix[(1, 0)],\n                matrix[(0, 1)],", "                matrix[(0, 1)],\n                matrix[(1, 0)],"),
+    ("C11", "svg-images-two-shells", "src/to_svg.rs",
+     "for transform in self.cell.periodic_images(position, 1, false) {", "for transform in self.cell.periodic_images(position, 1, true) {"),
+    ("C11", "lossy-float-parse-again", "Cargo.toml",
+     'serde_json = {version="~1.0.57", features=["float_roundtrip"]}', 'serde_json = "~1.0.57"'),
+    ("C11", "f32-visitor", "src/basis.rs",
+     "        Ok(value)\n    }\n}", "        Ok(value as f32 as f64)\n    }\n}"),
+    ("C10", "min-instead-of-max", "src/main.rs",
+     "        .max()\n", "        .min()\n"),
+    ("C10", "label-p2gg-as-p2mg", "src/wallpaper.rs",
+     'name: "p2gg",', 'name: "p2mg",'),
+    ("C10", "ord-ignores-sign", "src/state/potential.rs",
+     "            (Some(s), Some(o)) => s.partial_cmp(&o),\n            (_, _) => None,\n        }\n    }\n}\n\nimpl<S> Ord for PotentialState<S>",
+     "            (Some(s), Some(o)) => s.abs().partial_cmp(&o.abs()),\n            (_, _) => None,\n        }\n    }\n}\n\nimpl<S> Ord for PotentialState<S>"),
+    ("C09", "entropy-seed-in-last-stage", "src/main.rs",
+     "                .kt_start(0.)\n                .seed(index)\n                .build()\n                .optimise_state(opt_state)\n        })\n        .max()",
+     "                .kt_start(0.)\n                .build()\n                .optimise_state(opt_state)\n        })\n        .max()"),
+    ("C09", "static-step-counter-seed", "src/optimisation.rs",
+     "        let mut rng = Pcg64Mcg::seed_from_u64(self.seed);",
+     "        static CALLS: std::sync::atomic::AtomicU64 = std::sync::atomic::AtomicU64::new(0);\n        let n = CALLS.fetch_add(1, std::sync::atomic::Ordering::Relaxed);\n        let mut rng = Pcg64Mcg::seed_from_u64(self.seed ^ (n / 64));"),
 ]
 
 
@@ -112,7 +159,7 @@ def main():
             results.append((pid, name, verdict))
             print(pid, name, verdict, flush=True)
             restore()
-            sh(f"rm -f {VERIF}/replay/*.json")
+            [os.remove(os.path.join(VERIF,"replay",f)) for f in os.listdir(os.path.join(VERIF,"replay")) if f.endswith(".json")]
     finally:
         restore()
     missed = [r for r in results if "CAUGHT" not in r[2]]
